@@ -408,10 +408,20 @@ func registerNumberStubs(reg func(string, intrinsic)) {
 		if f.op == OConst {
 			return strVal{s: strconv.FormatFloat(f.f64(), byte(verb.u), int(prec.sval()), int(bits.u))}
 		}
-		if prec.sval() != -1 || (bits.u != 64 && bits.u != 32) {
-			panic(unsupported{"FormatFloat: only precision -1 with bit size 64 or 32 is modelled"})
+		if prec.sval() < -1 || (bits.u != 64 && bits.u != 32) {
+			panic(unsupported{"FormatFloat: only bit size 64 or 32 is modelled"})
 		}
 		tb := x.tb
+		if prec.sval() >= 0 {
+			// a fixed number of digits: the text denotes some float y of the same sign and class, not
+			// necessarily f itself (which y — the rounding — is library contract; a candidate built on this
+			// loose contract is replayed against the real function before it is reported)
+			y := x.auxVar(SF64)
+			x.axiom(tb.Eq(tb.fun(OFIsInf, y), tb.fun(OFIsInf, f)))
+			x.axiom(tb.Eq(tb.fun(OFIsNaN, y), tb.fun(OFIsNaN, f)))
+			x.axiom(tb.Eq(tb.Extract(tb.FToBits(y), 63, 63), tb.Extract(tb.FToBits(f), 63, 63)))
+			f = y
+		}
 		if bits.u == 32 {
 			// shortest text that identifies float32(f): it denotes some float64 y with float32(y) == float32(f)
 			// (which y — the digits — is library contract; the real function is consulted when a model is replayed)
